@@ -418,6 +418,22 @@ fn exec_label(ws: &[&str]) -> String {
     }
 }
 
+/// one-token encoding of a text: `%`, blank, newline and tab are percent-escaped
+fn esc(t: &str) -> String {
+    let mut o = String::with_capacity(t.len() + 8);
+    for c in t.chars() {
+        match c {
+            '%' => o.push_str("%25"),
+            ' ' => o.push_str("%20"),
+            '\n' => o.push_str("%0A"),
+            '\t' => o.push_str("%09"),
+            '\r' => o.push_str("%0D"),
+            _ => o.push(c),
+        }
+    }
+    o
+}
+
 fn tmp_path(tag: &str) -> std::path::PathBuf {
     let dir = std::env::var("HARNESS_TMP").map(std::path::PathBuf::from).unwrap_or_else(|_| std::env::temp_dir());
     dir.join(format!("sodg-harness-{}-{tag}.bin", std::process::id()))
@@ -554,6 +570,41 @@ impl World {
                             }
                         }
                         format!("ok {size} {tested} bad=[{}]", bad.join(","))
+                    }
+                }
+            }
+            [cmd @ ("xml" | "dot" | "debug" | "display"), a] => {
+                let Some(a) = parse_handle(a) else { return "bad-op".into() };
+                match self.hs.get(&a) {
+                    None => "bad-op".into(),
+                    Some(HS::Dead) => "dead".into(),
+                    Some(HS::Live(g)) => {
+                        let r = guard(|| with_g!(g, x => match *cmd {
+                            "xml" => x.to_xml().map_err(|e| e.to_string()),
+                            "dot" => Ok(x.to_dot()),
+                            "debug" => Ok(format!("{x:?}")),
+                            _ => Ok(format!("{x}")),
+                        }));
+                        match r {
+                            Some(Ok(t)) => format!("ok {}", esc(&t)),
+                            Some(Err(_)) => "err".into(),
+                            None => "panic".into(),
+                        }
+                    }
+                }
+            }
+            [cmd @ ("inspect" | "vprint"), a, v] => {
+                let (Some(a), Ok(v)) = (parse_handle(a), v.parse::<usize>()) else { return "bad-op".into() };
+                match self.hs.get(&a) {
+                    None => "bad-op".into(),
+                    Some(HS::Dead) => "dead".into(),
+                    Some(HS::Live(g)) => {
+                        let r = guard(|| with_g!(g, x => if *cmd == "inspect" { x.inspect(v) } else { x.v_print(v) }.map_err(|e| e.to_string())));
+                        match r {
+                            Some(Ok(t)) => format!("ok {}", esc(&t)),
+                            Some(Err(_)) => "err".into(),
+                            None => "panic".into(),
+                        }
                     }
                 }
             }
